@@ -24,3 +24,4 @@ def run(ctx):
     MP.length_sum(ctx, "C01.R4")
     MP.stream_accounting(ctx, "C01.R5")
     MP.correspondence(ctx, "C01.R6")
+    MP.stream_frame(ctx, "C01.R5.frame")
